@@ -499,7 +499,7 @@ func main() {
 	runOne := func(id int, corr bool) {
 		c := genCase(root.Fork(uint64(id)), id)
 		clk.SetMs(clk0)
-		obs, finals := kit.Run("c05", c, clk)
+		obs, finals, _ := kit.Run("c05", c, clk)
 		rep.Evaluations++
 		mr := monitor(c, obs, rep)
 		if mr.nontrivial {
